@@ -14,7 +14,7 @@ import typing
 import numpy as np
 from scipy import signal
 
-from mc import bfs, canon, payload
+from mc import bfs, canon, looks, payload
 from mc.core import Tally
 
 ID = "C15"
@@ -32,6 +32,8 @@ ASSUMPTIONS = [
     "expected result of a run = result of that algorithm run alone on a fresh setup with the same data and parameters, computed once per parameter set in its own fresh child process and compared bit-wise (digest of every result and parameter field, NaN patterns included)",
     "when run_all is rejected because one algorithm lacks parameters, algorithms with parameters may or may not have been run (order of run_all is not part of the statement); each must equal one of its two admissible states",
     "pickle files are written to a scratch directory created and removed by the run",
+    "event 'look': every public plot method (mc/looks.py) of every algorithm that holds a result is called with a frequency window; looking is a "
+    "read-only operation, so every algorithm must still equal its isolated reference bit-wise afterwards (results, run parameters, shared data)",
 ]
 
 FS = 50.0
@@ -196,7 +198,7 @@ def events_for(kind, subset):
     nop = "NOPAR"
     ev = [("add", n) for n in subset] + [("add", nop), ("add2", subset[1], subset[2])]
     ev += [("run", n) for n in subset] + [("run", nop), ("runall",)]
-    ev += [("mpe", n) for n in subset] + [("saveload",), ("decoy",), ("prep",), ("readd", subset[-1])]
+    ev += [("mpe", n) for n in subset] + [("saveload",), ("decoy",), ("prep",), ("readd", subset[-1]), ("look",)]
     return ev
 
 
@@ -260,6 +262,11 @@ def run_history(kind, subset, events, hist, seed, scratch, judge_all=False):
                 ss.mpe(ev[1], **(mpe_args(kind, ev[1], resver.get(ev[1], 0)) if ev[1] != "NOPAR" else dict(sel_freq=[5.0])))
             elif ev[0] == "decoy":
                 run_decoy(kind, subset, seed)
+            elif ev[0] == "look":
+                # read-only operations (mc/looks.py): every chart of every algorithm that holds a result, with a frequency window
+                for n_, a_ in list(ss.algorithms.items()):
+                    if model.get(n_) in ("ran", "mpe", "reran"):
+                        looks.look_at_alg(a_, step + len(evs), (0.1 * FS, 0.3 * FS))
             elif ev[0] == "saveload":
                 path = os.path.join(scratch, f"s{os.getpid()}.pkl")
                 gen.save_to_file(ss, path)
@@ -606,7 +613,7 @@ def explore(ctx):
     finally:
         shutil.rmtree(scratch, ignore_errors=True)
     ctx.require("ok:add", "ok:run", "ok:runall", "ok:mpe", "saveload-equal", "rejected:run:NOPAR", "rejected:run:absent",
-                "rejected:mpe:ok", "rejected:runall:ok", "ok:decoy", "ok:add2", "ok:prep", "ok:readd", "poser-accepted", "poser-rejected",
+                "rejected:mpe:ok", "rejected:runall:ok", "ok:decoy", "ok:add2", "ok:prep", "ok:readd", "ok:look", "poser-accepted", "poser-rejected",
                 "poser-input-mixes-one-call-and-one-call-per-algorithm-setups")
 
 
